@@ -36,7 +36,9 @@ pub const RULE: &str = "sessions with a generated relayer history (messages, for
 under-claimed / duplicated payloads) written to the real relayer database; every block advances the DA height by 0..=5 \
 (events beyond the chosen height usually exist). Expected import list = the harness's own copy of the events of heights \
 p+1..=d in order. Judged: MessageImported sequence, message rows written, no message imported twice over the history, \
-every forced transaction is either the next L1 transaction of the block or has exactly one ForcedTransactionFailed event, \
+every forced transaction is either the next L1 transaction of the block or has exactly one ForcedTransactionFailed event \
+(and a failure reason that contradicts the executor's documented rule - e.g. InsufficientMaxGas although claim >= real max gas, claims \
+generated at real-1, real, real+1, larger - is a violation), \
 event_inbox_root = own RFC 6962 root over the event hashes; the block is also validated. Non-trivial: >=1 relayed event \
 covered; distinct = (DA advance, per-height event kinds, outcome of each forced tx).";
 
@@ -195,8 +197,54 @@ pub fn run(args: &Args, report: &Report) {
             for e in &expected {
                 let Event::Transaction(rt) = e else { continue };
                 let rid = rt.id();
+                // the harness's own view of the payload, per the documented ForcedTransactionFailure variants
+                let decoded0 = Transaction::from_bytes(rt.serialized_transaction()).ok();
+                let real_gas = decoded0
+                    .as_ref()
+                    .and_then(|t| chaingen::fuel_core_types::blockchain::transaction::TransactionExt::max_gas(t, &sess.params).ok());
+                let claim_class = match real_gas {
+                    Some(g) if rt.max_gas() + 1 == g => "one_below",
+                    Some(g) if rt.max_gas() < g => "below",
+                    Some(g) if rt.max_gas() == g => "exact",
+                    Some(g) if rt.max_gas() == g + 1 => "one_above",
+                    Some(_) => "above",
+                    None => "no_gas",
+                };
                 if let Some(i) = failed_ids.iter().position(|(id, _, _)| *id == rid) {
                     let (_, h, failure) = failed_ids.remove(i);
+                    c.report.count(&format!("c05.forced_claim.{claim_class}.failed"));
+                    // A forced transaction that is valid under the executor's own documented rules must not be
+                    // reported with that reason: `InsufficientMaxGas` = "didn't specify high enough max gas"
+                    // (claim >= real max gas is high enough), `CodecError` = payload does not decode,
+                    // `InvalidTransactionType` = Mint, `CheckError` = fails the validity checks.
+                    let mut why_wrong: Option<&str> = None;
+                    if failure.starts_with("Insufficient max gas") && real_gas.map(|g| rt.max_gas() >= g).unwrap_or(false) {
+                        why_wrong = Some("forced_tx_with_sufficient_gas_claim_reported_insufficient");
+                    } else if failure.starts_with("Failed to decode") && decoded0.is_some() {
+                        why_wrong = Some("decodable_forced_tx_reported_undecodable");
+                    } else if failure.starts_with("Transaction type is not accepted")
+                        && decoded0.as_ref().map(|t| !matches!(t, Transaction::Mint(_))).unwrap_or(false)
+                    {
+                        why_wrong = Some("non_mint_forced_tx_reported_as_wrong_type");
+                    } else if failure.starts_with("Failed validity checks") {
+                        use chaingen::fuel_core_types::fuel_vm::checked_transaction::IntoChecked;
+                        if let Some(t) = decoded0.clone() {
+                            if !matches!(t, Transaction::Mint(_)) && t.into_checked(plan.height.into(), &sess.params).is_ok() {
+                                why_wrong = Some("valid_forced_tx_reported_invalid");
+                            }
+                        }
+                    }
+                    if let Some(sig) = why_wrong {
+                        c.violation(
+                            sig,
+                            format!(
+                                "relayed tx {rid} (claimed max gas {}, real max gas {:?}) reported failed with: {failure}",
+                                rt.max_gas(),
+                                real_gas
+                            ),
+                            replay(),
+                        );
+                    }
                     if u32::from(h) != plan.height {
                         c.violation("forced_tx_failure_reports_wrong_height", format!("{h} vs {}", plan.height), replay());
                     }
@@ -217,6 +265,7 @@ pub fn run(args: &Args, report: &Report) {
                 if id.is_some() && id == next && ptr + 1 < txs.len() {
                     ptr += 1;
                     c.report.count("c05.forced_executed");
+                    c.report.count(&format!("c05.forced_claim.{claim_class}.executed"));
                     fates.push("executed".into());
                     let st = &produced.tx_status[ptr - 1];
                     if *st.result.total_fee() != 0 {
@@ -323,6 +372,9 @@ pub fn run(args: &Args, report: &Report) {
         report.require("c05.blocks_with_events_beyond_da_height", args.by_tier(1700, 17000));
         report.require("c05.forced_executed", args.by_tier(1400, 14000));
         report.require("c05.messages_imported", args.by_tier(2700, 27000));
+        report.require("c05.forced_claim.exact.executed", args.by_tier(400, 4_000));
+        report.require("c05.forced_claim.one_above.executed", args.by_tier(100, 1_000));
+        report.require("c05.forced_claim.one_below.failed", args.by_tier(100, 1_000));
         report.require("c05.forced_failed_total", args.by_tier(2900, 29000));
         report.require("c05.validated", args.by_tier(2900, 29000));
     }
